@@ -20,6 +20,7 @@ T0 = datetime(2024, 1, 1, tzinfo=timezone.utc)
 EPS = F(1, 2 ** 48)
 PREC = {"+": 1, "-": 1, "*": 2, "/": 2}
 BINOPS = ["+", "-", "*", "/"]
+PHASE_FACTORS = (1.0, 2.0, -1.0)
 POOL = [0.0, 1.0, -1.0, 2.0, -2.0, 0.5, -0.5, 3.0, 7.0, -7.0, 10.0, 100.0, -100.0, 1e6, -1e6, 0.25, 1 / 3, -2 / 3, 1e-3]
 
 
@@ -285,6 +286,39 @@ async def run_program(prog: dict[str, Any], out: dict[str, Any], pace_timeout: f
         for i in range(n):
             name = ComponentMetricRequest("ns", i + 1, ComponentMetricId.ACTIVE_POWER, None).get_channel_name()
             senders.append(reg.get_or_create(Sample[Quantity], name).new_sender())
+    elif mode == "api3":
+        # 3-phase engines composed through the operator API (HigherOrderFormulaBuilder3Phase): leaf i, phase p
+        from frequenz.sdk.timeseries.formula_engine._formula_engine import FormulaEngine3Phase
+
+        chans3 = [[Broadcast(name=f"c{i}p{p}") for p in range(3)] for i in range(n)]
+        senders3 = [[c.new_sender() for c in row] for row in chans3]
+        leafs = [FormulaEngine3Phase(f"e{i}", Quantity, tuple(
+            FormulaEngine.from_receiver(f"e{i}p{p}", chans3[i][p].new_receiver(limit=200), Quantity) for p in range(3)))
+            for i in range(n)]
+        eng = build_api(prog["ast"], leafs).build("f", nones_are_zeros=naz)
+        out["formula_str"] = "3-phase " + str(prog["ast"])
+        rx = eng.new_receiver(max_size=200)
+        await asyncio.sleep(0)
+        for k, vec in enumerate(prog["vectors"]):
+            ts = T0 + timedelta(seconds=k)
+            for i in range(n):
+                for p in range(3):
+                    await senders3[i][p].send(Sample(ts, Quantity(float(vec[i]) * PHASE_FACTORS[p])))
+            got = []
+            try:
+                got.append(await asyncio.wait_for(rx.receive(), timeout=pace_timeout))
+            except asyncio.TimeoutError:
+                pass
+            await asyncio.sleep(0.01)
+            while rx._q:  # noqa: SLF001
+                got.append(rx.consume())
+            out["rounds"].append([(o.timestamp, [None if v is None else v.base_value
+                                                 for v in (o.value_p1, o.value_p2, o.value_p3)]) for o in got])
+        try:
+            await eng._stop()  # noqa: SLF001
+        except Exception:  # pylint: disable=broad-except
+            pass
+        return
     else:
         chans = [Broadcast(name=f"c{i}") for i in range(n)]
         senders = [c.new_sender() for c in chans]
